@@ -33,6 +33,8 @@ class Capture:
     def __init__(self):
         self.solves = []
         self.rules = []
+        self.flags = []          # per rule call: did it signal the early exit
+        self.outs = []           # per rule call: the full output
         self.saved = []
 
     def __enter__(self):
@@ -56,6 +58,8 @@ class Capture:
                     out = __fn(*a, **k)
                     w = out[0] if isinstance(out, tuple) else out
                     cap.rules.append(np.array(w, dtype=float, copy=True))
+                    cap.flags.append(bool(out[-1]) if isinstance(out, tuple) and isinstance(out[-1], (bool, np.bool_)) else False)
+                    cap.outs.append(out)
                     return out
                 setattr(W, nm, wrapper)
                 self.saved.append((W, nm, fn))
@@ -332,6 +336,164 @@ def correspond(ctx):
                     v_old = s2['out']
                     g *= gm
                     bt *= bm
+    # which weights the returned baseline was solved with (theorems converged_pair_solves / exhausted_returns_fresh_state /
+    # brpls_pair_solves / jbcd_pair_solves): the Lean loops with state, instantiated on indices and fed the decisions the real run took
+    # (recorded differences, early-exit flags), predict WHICH iterate is returned as weights and WHICH solve as baseline
+    BIG = '1' + '0' * 400
+    for host, kind in hosts:
+        for rep in range(4 if not ctx.thorough else 10):
+            n = int(rng.choice([12, 30, 80]))
+            d = int(rng.integers(2, 4)) if kind in ('iasls', 'drpls') else int(rng.integers(1, 4))
+            x, y = data_1d(rng, n)
+            if rng.random() < 0.35:
+                # noise-free smooth data: the rules of airpls / arpls / drpls / iarpls / aspls / lsrpls then signal their early exit
+                tt = np.linspace(0, 1, n)
+                y = [np.full(n, 3.0), 4 + 2 * tt, (tt - 0.5) ** 2, np.exp(3 * tt)][int(rng.integers(0, 4))]
+                ctx.count('loop-data:smooth')
+            lam = float(10.0 ** int(rng.integers(0, 7)))
+            max_iter = int(rng.choice([0, 1, 2, 5, 12, 40]))
+            tol = float(rng.choice([0.0, 1e-4, 1e-2, 3e-1, np.inf]))
+            uw = None if rng.random() < 0.6 else np.round(rng.uniform(0.05, 1, n) * 64) / 64
+            if rep == 0 and host in ('arpls', 'iarpls', 'aspls', 'lsrpls', 'drpls', 'airpls'):
+                # aimed at the early exit: smooth data, many passes allowed, a tolerance that is not met first
+                tt = np.linspace(0, 1, n)
+                y = [(tt - 0.5) ** 2, np.exp(3 * tt), 4 + 2 * tt][int(rng.integers(0, 3))]
+                lam, max_iter, tol, uw = float(rng.choice([1e-2, 1e2, 1e6])), 40, 1e-7, None
+            kw = dict(lam=lam, diff_order=d, max_iter=max_iter, tol=tol, weights=uw)
+            ualpha = None
+            if kind == 'aspls' and rng.random() < 0.4:
+                ualpha = np.round(rng.uniform(0.2, 1, n) * 64) / 64
+                kw['alpha'] = ualpha
+            with Capture() as cap:
+                try:
+                    with np.errstate(all='ignore'):
+                        b, p = getattr(Baseline(x), host)(y, **kw)
+                except Exception as ex:
+                    ctx.count('loop-raised:' + type(ex).__name__)
+                    continue
+            th = np.asarray(p['tol_history'], dtype=float)
+            pre = 1 if (kind == 'iasls' and uw is None) else 0         # iasls computes its first weights with the rule, before the loop
+            loop_rules, loop_flags, loop_outs = cap.rules[pre:], cap.flags[pre:], cap.outs[pre:]
+            if th.ndim != 1 or not np.all(np.isfinite(th)) or not cap.solves or len(loop_rules) != len(cap.solves):
+                ctx.count('loop-skipped')
+                continue
+            ctx.case(('loop', host, n, d, lam, max_iter, tol, uw is not None), nontrivial=True)
+            ctx.count('loop-host:' + host)
+            w_seq = [cap.rules[0] if pre else (np.ones(n) if uw is None else uw)] + loop_rules
+            a_seq = None
+            if kind == 'aspls':
+                a_seq = [np.ones(n) if ualpha is None else ualpha]
+                for o in loop_outs:
+                    ad = np.abs(o[1])
+                    with np.errstate(all='ignore'):
+                        a_seq.append(ad / ad.max())
+            exit_at = next((k for k, f in enumerate(loop_flags) if f), None)
+            lines.append(f'c06.loop {max_iter + 1} {q(tol) if np.isfinite(tol) else BIG} {qs(th)} {"N" if exit_at is None else exit_at}')
+            metas.append(('loop', {'host': host, 'kind': 'loop', 'n': n, 'd': d, 'lam': lam, 'solver': None, 'step': 'returned pair',
+                                   'kw': {k: (v.tolist() if isinstance(v, np.ndarray) else v) for k, v in kw.items()}, 'x': x.tolist(), 'y': y.tolist()},
+                          {'b': np.asarray(b), 'w': np.asarray(p['weights'], float), 'alpha': np.asarray(p['alpha'], float) if kind == 'aspls' else None,
+                           'len': len(th), 'w_seq': w_seq, 'a_seq': a_seq, 'outs': [sv['out'] for sv in cap.solves]}))
+    # brpls: nested loops
+    from pybaselines import whittaker as wh_mod
+    for rep in range(8 if not ctx.thorough else 30):
+        n = int(rng.choice([15, 40, 90]))
+        d = int(rng.integers(1, 4))
+        x, y = data_1d(rng, n)
+        lam = float(10.0 ** int(rng.integers(0, 7)))
+        max_iter, max_iter_2 = int(rng.choice([0, 1, 3, 10])), int(rng.choice([0, 1, 2, 6]))
+        tol, tol_2 = float(rng.choice([0.0, 1e-3, 5e-2, 1.0, np.inf])), float(rng.choice([0.0, 1e-3, 1e-1, np.inf]))
+        uw = None if rng.random() < 0.6 else np.round(rng.uniform(0.05, 1, n) * 64) / 64
+        rds = []
+        orig_rd = wh_mod.relative_difference
+
+        def rd(old, new, *a, __o=orig_rd, **k):
+            v = __o(old, new, *a, **k)
+            rds.append(float(v))
+            return v
+        wh_mod.relative_difference = rd
+        try:
+            with Capture() as cap:
+                with np.errstate(all='ignore'):
+                    b, p = Baseline(x).brpls(y, lam=lam, diff_order=d, max_iter=max_iter, tol=tol, max_iter_2=max_iter_2, tol_2=tol_2, weights=uw)
+        except Exception as ex:
+            ctx.count('brpls-raised:' + type(ex).__name__)
+            continue
+        finally:
+            wh_mod.relative_difference = orig_rd
+        T = len(cap.solves)
+        th = np.asarray(p['tol_history'], dtype=float)
+        if len(cap.rules) != T or T == 0:
+            continue
+        # translate what the run did into the decision strings (bookkeeping only: which branch each solve took, and whether the outer
+        # criterion held when the inner loop ended); the model decides from them what is returned
+        inner, outer = [], {}
+        t, ri, ok = 0, 0, True
+        for i in range(max_iter_2 + 1):
+            exited = False
+            for j in range(max_iter + 1):
+                if t >= T:
+                    ok = False
+                    break
+                if cap.flags[t]:
+                    inner.append('2')
+                    exited = True
+                    t += 1
+                    break
+                if ri >= len(rds):
+                    ok = False
+                    break
+                conv = rds[ri] < tol
+                ri += 1
+                inner.append('1' if conv else '0')
+                t += 1
+                if conv:
+                    break
+            if not ok or i >= th.shape[1]:
+                ok = False
+                break
+            stop_outer = bool(th[0, i] < (np.inf if exited else tol_2))
+            outer[t] = stop_outer
+            if stop_outer:
+                break
+        if not ok or t != T:
+            dis.append(Disagreement('c06.model', 'model:brpls:trace', f'brpls (N={n}, max_iter={max_iter}, max_iter_2={max_iter_2}, tol={tol}, tol_2={tol_2}): the run '
+                                    f'made {T} solves, the nested-loop skeleton accounts for {t}', {'n': n, 'max_iter': max_iter, 'max_iter_2': max_iter_2}, False))
+            continue
+        ctx.case(('brpls-loop', n, d, lam, max_iter, max_iter_2, tol, tol_2, uw is not None), nontrivial=True)
+        ctx.count('loop-host:brpls')
+        ostr = ''.join('1' if outer.get(w, False) else '0' for w in range(T + 2))
+        lines.append(f'c06.brloop {max_iter} {max_iter_2} {"".join(inner)} {ostr}')
+        metas.append(('brloop', {'host': 'brpls', 'kind': 'loop', 'n': n, 'd': d, 'lam': lam, 'solver': None, 'step': 'returned pair', 'x': x.tolist(), 'y': y.tolist(),
+                                 'kw': {'max_iter': max_iter, 'max_iter_2': max_iter_2, 'tol': tol, 'tol_2': tol_2, 'weights': None if uw is None else uw.tolist()}},
+                      {'b': np.asarray(b), 'w': np.asarray(p['weights'], float), 'y': y, 'w_seq': [np.ones(n) if uw is None else uw] + list(cap.rules),
+                       'outs': [sv['out'] for sv in cap.solves]}))
+    # jbcd: (baseline, signal) of the last pass
+    for rep in range(6 if not ctx.thorough else 20):
+        n = int(rng.choice([12, 40, 90]))
+        d = int(rng.integers(1, 4))
+        x, y = data_1d(rng, n)
+        max_iter = int(rng.choice([0, 1, 4, 15]))
+        tol, tol_2 = float(rng.choice([0.0, 1e-3, 5e-2, np.inf])), float(rng.choice([0.0, 1e-3, 5e-2, np.inf]))
+        with Capture() as cap:
+            try:
+                with np.errstate(all='ignore'):
+                    b, p = Baseline(x).jbcd(y, half_window=int(rng.integers(1, 5)), diff_order=d, max_iter=max_iter, tol=tol, tol_2=tol_2,
+                                            beta=float(10.0 ** int(rng.integers(0, 4))), gamma=float(10.0 ** int(rng.integers(-1, 2))))
+            except Exception as ex:
+                ctx.count('jbcd-loop-raised:' + type(ex).__name__)
+                continue
+        th = np.asarray(p['tol_history'], dtype=float)
+        if th.ndim != 2 or len(cap.solves) != 2 * len(th):
+            dis.append(Disagreement('c06.model', 'model:jbcd:trace', f'jbcd (N={n}, max_iter={max_iter}): {len(cap.solves)} solves for {len(th)} recorded passes',
+                                    {'n': n, 'max_iter': max_iter}, False))
+            continue
+        ctx.case(('jbcd-loop', n, d, max_iter, tol, tol_2), nontrivial=True)
+        ctx.count('loop-host:jbcd')
+        stops = ''.join('1' if (r_[0] < tol and r_[1] < tol_2) else '0' for r_ in th)
+        lines.append(f'c06.jbloop {max_iter + 1} {stops}')
+        metas.append(('jbloop', {'host': 'jbcd', 'kind': 'loop', 'n': n, 'd': d, 'lam': None, 'solver': None, 'step': 'returned pair', 'x': x.tolist(), 'y': y.tolist(),
+                                 'kw': {'max_iter': max_iter, 'tol': tol, 'tol_2': tol_2}},
+                      {'b': np.asarray(b), 's': np.asarray(p['signal']), 'len': len(th), 'outs': [sv['out'] for sv in cap.solves]}))
     # 2-D assembled matrix: the sparse `lhs` handed to PenalizedSystem2D.direct_solve against the Lean model `asm2d`
     # (kron(lam_r P_r, I) + kron(I, lam_c P_c) with main_diagonal + w); dyadic lam and weights, so the first solve is exact
     for host in ('asls', 'arpls', 'airpls'):
@@ -438,6 +600,42 @@ def correspond(ctx):
                 dis.append(Disagreement('c06.berr', f'{meta["host"]}:system', f'{meta["host"]} (N={meta.get("n", meta.get("shape"))}, d={meta["d"]}, lam={meta["lam"]}, '
                                         f'solver={meta.get("solver")}, step {meta["step"]}): the baseline does not solve the documented system for the weights in '
                                         f'force (exact normwise backward error {be:.3g})', meta, True))
+        elif mt[0] in ('loop', 'brloop', 'jbloop'):
+            _, meta, obs = mt
+            toks = r.split(' ')
+            why = None
+            if mt[0] == 'loop':
+                plen, reason, sidx, bidx = int(toks[0]), toks[1], int(toks[2]), toks[3]
+                ctx.count('loop-stop:' + reason)
+                if plen != obs['len']:
+                    why = f'tol_history has {obs["len"]} entries, the loop model on the recorded decisions gives {plen} ({reason})'
+                elif bidx == '-' or int(bidx) >= len(obs['outs']) or not np.array_equal(obs['outs'][int(bidx)], obs['b'], equal_nan=True):
+                    why = f'the returned baseline is not the result of solve #{bidx} ({reason})'
+                elif sidx >= len(obs['w_seq']) or not np.array_equal(obs['w_seq'][sidx], obs['w'], equal_nan=True):
+                    why = (f'the returned weights are not iterate #{sidx} (the model: {reason}, baseline from solve #{bidx}'
+                           f'{", so the returned pair must be a solve pair" if reason != "exhausted" else ""})')
+                elif obs['a_seq'] is not None and not np.array_equal(obs['a_seq'][sidx], obs['alpha'], equal_nan=True):
+                    why = f'the returned alpha is not iterate #{sidx} ({reason})'
+            elif mt[0] == 'brloop':
+                bidx, widx = toks[0], int(toks[1])
+                ctx.count('brloop:' + ('data-returned' if bidx == '-' else 'pair'))
+                want_b = obs['y'] if bidx == '-' else obs['outs'][int(bidx)]
+                if not np.array_equal(want_b, obs['b'], equal_nan=True):
+                    why = f'the returned baseline is not {"the data" if bidx == "-" else "the result of solve #" + bidx}'
+                elif not np.array_equal(obs['w_seq'][widx], obs['w'], equal_nan=True):
+                    why = f'the returned weights are not those of solve #{widx} (the returned baseline is solve #{bidx})'
+            else:
+                plen, reason, vidx, sidx = int(toks[0]), toks[1], toks[2], toks[3]
+                ctx.count('jbloop-stop:' + reason)
+                if plen != obs['len']:
+                    why = f'tol_history has {obs["len"]} rows, the loop model on the recorded decisions gives {plen} ({reason})'
+                elif vidx == '-' or not np.array_equal(obs['outs'][2 * int(vidx) + 1], obs['b'], equal_nan=True):
+                    why = f'the returned baseline is not the baseline solve of pass {vidx}'
+                elif not np.array_equal(obs['outs'][2 * int(sidx)], obs['s'], equal_nan=True):
+                    why = f'the returned signal is not the signal solve of pass {sidx}'
+            if why:
+                dis.append(Disagreement('c06.pair', f'{meta["host"]}:returned-pair', f'{meta["host"]} (N={meta["n"]}, {meta["kw"]}): {why}',
+                                        meta, True))
         elif mt[0] == 'asmjbcd':
             _, meta, lhs, exact = mt
             pred = np.array([[float(v) for v in parse_qs(row)] for row in r.split(';')])
